@@ -1003,6 +1003,14 @@ def _forward_target(f):
     argc = f.get("argc", 0)
     blocks = [b for b in f["blocks"] if not b.get("cleanup")]
     calls = [b for b in blocks if b["term"]["k"] == "call"]
+    # a fresh container made for the worker (`&mut HashMap::new()`: a per-call memo handed down) is not logic of its own
+    fresh = {}
+    for b in list(calls):
+        t_ = b["term"]
+        nm_ = ((t_.get("fn") or {}).get("def") or "").rsplit("::", 1)[-1]
+        if not t_.get("args") and nm_ in ("new", "default") and not (t_.get("dest") or {}).get("proj") and len(calls) > 1:
+            fresh[(t_.get("dest") or {}).get("l")] = True
+            calls.remove(b)
     if len(calls) != 1 or any(b["term"]["k"] not in ("call", "return", "goto", "drop") for b in blocks):
         return None
     src = {}                                   # temp -> parameter it copies
@@ -1019,6 +1027,8 @@ def _forward_target(f):
             elif rv["k"] == "ref" and [p_.get("p") for p_ in rv["place"]["proj"]] == ["deref"]:
                 l = rv["place"]["l"]                # `&*self`: a reborrow of a reference parameter
                 src[lhs["l"]] = src.get(l, l)
+            elif rv["k"] == "ref" and not rv["place"]["proj"] and (rv["place"]["l"] in fresh or src.get(rv["place"]["l"]) == "fresh"):
+                src[lhs["l"]] = "fresh"             # `&mut <fresh container>`
             else:
                 return None
     t = calls[0]["term"]
@@ -1026,9 +1036,16 @@ def _forward_target(f):
     if not (fnr.get("local") or fnr.get("res_local")) or fnr.get("res_kind") not in ("Item", None) and not fnr.get("local"):
         return None
     args = t.get("args") or []
-    if len(args) != argc:
+    if len(args) < argc or (len(args) > argc and not fresh):
         return None
     for i, a in enumerate(args):
+        if i >= argc:
+            # extra arguments of the worker: a fresh container or a constant
+            if a.get("k") == "const":
+                continue
+            if a.get("k") in ("copy", "move") and not a["place"]["proj"] and (src.get(a["place"]["l"]) == "fresh" or a["place"]["l"] in fresh):
+                continue
+            return None
         if a.get("k") not in ("copy", "move") or a["place"]["proj"]:
             return None
         l = a["place"]["l"]
@@ -1061,7 +1078,7 @@ def elide_forwarders(facts):
             if not tgt or tgt == f["path"] or len(by_path.get(tgt, [])) != 1:
                 continue
             g = by_path[tgt][0]
-            if g.get("argc") != f.get("argc") or g["path"].rsplit("::", 1)[0] != f["path"].rsplit("::", 1)[0]:
+            if g.get("argc", 0) < f.get("argc", 0) or g["path"].rsplit("::", 1)[0] != f["path"].rsplit("::", 1)[0]:
                 continue
             gname, fname = last(g["path"]), last(f["path"])
             if not _re.fullmatch(r"[A-Za-z_][A-Za-z0-9_]*", gname) or sum(1 for h in fns if last(h["path"]) == gname) != 1:
@@ -1382,7 +1399,18 @@ class Program:
                     if isinstance(x, tuple) and x and x[0] in ("mu", "phi", "gamma", "local", "mutref", "mut", "top"):
                         return False
                 return True
-            if not all(constlike(a) or of_params(a) for a in args[f.argc:]):
+            def fresh(a):
+                """`&mut HashMap::new()`: a fresh container handed to the worker (a per-call memo)"""
+                a = strip_refs(a)
+                if isinstance(a, tuple) and a and a[0] == "mutref":
+                    for cs in f.terms.calls:
+                        if cs.term is r or cs.term == r:
+                            v = f.terms.state_in.get(cs.bb, {}).get(a[1])
+                            v = strip_refs(v) if v is not None else None
+                            return isinstance(v, tuple) and v and v[0] == "call" and v[1].name in ("new", "default", "with_capacity") \
+                                and all(constlike(x) for x in v[2])
+                return False
+            if not all(constlike(a) or of_params(a) or fresh(a) for a in args[f.argc:]):
                 return f
             gs = [g for g in self.resolve(r[1]) if "{closure" not in g.npath]
             if len(gs) != 1 or gs[0].impl_self != f.impl_self or not gs[0].name.startswith(f.name) or gs[0] is f:
